@@ -91,7 +91,7 @@ static uint64_t judge_roc_pr(const double *t, const double *s, int n, const char
   }
   vx_check(fabs(auc - aref) <= tol, "auc|ROC", "%s n=%d (%d+,%d-): AUC %.17g, Mann-Whitney %ld/%d = %.17g", tag, n, np, nn, auc, cnt, np * nn, aref);
   margin("auc", fabs(auc - aref), tol);
-  uint64_t h = vx_hash_doubles(&auc, 1, 3);
+  uint64_t h = vx_hash_doubles(&auc, 1, 3); if (shp) h = hm_hash(roc, h);
   if (with_maps) {
     static double u[NMAXV]; static const char *MN[4] = {"x^3", "exp(x)", "2x+5", "atan(x)"};
     for (int mp = 0; mp < 4; mp++) {
@@ -127,7 +127,7 @@ static uint64_t judge_roc_pr(const double *t, const double *s, int n, const char
   ld apr = ref_ap(t, s, n);
   vx_check(fabs(ap - (double)apr) <= tol, "ap|PrecisionRecall", "%s n=%d: area %.17g, definition %.17Lg", tag, n, ap, apr);
   margin("ap", fabs(ap - (double)apr), tol);
-  h = vx_hash_doubles(&ap, 1, h);
+  h = vx_hash_doubles(&ap, 1, h); if (shp2) h = hm_hash(pr, h);
   DelMatrix(&roc); DelMatrix(&pr);
   return h;
 }
@@ -165,9 +165,12 @@ static void part_roc_perm(void) {
   for (int i = 0; i < n; i++) { t2[i] = t[pi[i]]; s2[i] = s[pi[i]]; }
   double a = call_roc(t, s, n, NULL), b = call_roc(t2, s2, n, NULL);
   vx_check(fabs(a - b) <= auc_tol(n), "auc-permutation|ROC", "n=%d truth %d ranking %ld: AUC %.17g, after reordering the objects (permutation %ld) %.17g", n, tv, r, a, p, b);
-  double pa = call_pr(t, s, n, NULL), pb = call_pr(t2, s2, n, NULL);
-  vx_check(fabs(pa - pb) <= auc_tol(n), "ap-permutation|PrecisionRecall", "n=%d truth %d ranking %ld: area %.17g, after reordering the objects (permutation %ld) %.17g", n, tv, r, pa, p, pb);
-  uint64_t h = vx_hash_doubles(&a, 1, 9); vx_outcome(vx_hash_doubles(&pa, 1, h));
+  double pa = 0;
+  if (n <= 5) { /* not part of the statement; cheap enough below n = 6 */
+    double pb = call_pr(t2, s2, n, NULL); pa = call_pr(t, s, n, NULL);
+    vx_check(fabs(pa - pb) <= auc_tol(n), "ap-permutation|PrecisionRecall", "n=%d truth %d ranking %ld: area %.17g, after reordering the objects (permutation %ld) %.17g", n, tv, r, pa, p, pb);
+  }
+  uint64_t h = vx_hash_doubles(&a, 1, 9); h = vx_hash_doubles(s2, (size_t)n, h); vx_outcome(vx_hash_doubles(&pa, 1, h));
 }
 
 static void index_perm(int which, int n, int *pi) {
@@ -361,6 +364,9 @@ static void tables_da(void) {
   /* missing-coded truths: object 1 (and object 3) of response 0 */
   if (nmiss >= 1) yt->data[1][0] = MISS;
   if (nmiss >= 2) yt->data[3][0] = MISS;
+  /* two missing truths together with curve tensors is a known crash class (each crash costs a worker restart):
+   * one representative sub-family instead of the full product */
+  if (nmiss >= 2 && curves) vx_require(n == 5 && ny == 1 && nlv == 1 && k == 0);
   static double a[NMAXV], b[NMAXV]; static int idx[NMAXV];
   for (int j = 0; j < ny; j++) { col_to(yt, j, a); int p = 0, q = 0; for (int i = 0; i < n; i++) { if (a[i] == 1.0) p++; else if (a[i] != MISS) q++; } vx_require(p >= 1 && q >= 1); }
   for (int c = 0; c < ny * nlv; c++) { col_to(ys, c, b); vx_require(distinct(b, n)); }
